@@ -219,6 +219,16 @@ def method_rules(repo, rep, ev):
     iers_rules(repo, rep, ev)
 
 
+def type_dependent(value, slot):
+    """the value contains a branch on type(slot) - the numeric result depends on the python type of a number"""
+    sid = set(slot.atoms(deep=False)) if isinstance(slot, Rat) else set()
+    for k in value.atoms(deep=True):
+        a = alg.TABLE.atoms[k]
+        if a.kind == 'fn' and a.name == 'type' and a.args and isinstance(a.args[0], Rat) and sid & set(a.args[0].atoms(deep=False)):
+            return True
+    return False
+
+
 def neg_rules(repo, rep, ev):
     cls = repo.cls('geodepy.constants', 'Transformation')
     T = ev.symbolic_object(cls, 'T')
@@ -233,7 +243,12 @@ def neg_rules(repo, rep, ev):
         rep.undecided('R-WIRE', base + 'shape', wn, '__neg__ does not evaluate to a Transformation')
     else:
         for p in PARAMS + RATES:
-            check_equal(rep, 'R-WIRE', base + p, wn, r.fields.get(p), -T.fields[p], 'slot %s receives -self.%s' % (p, p))
+            got = r.fields.get(p)
+            if isinstance(got, Rat) and type_dependent(got, T.fields[p]):
+                rep.violated('R-WIRE', base + p, wn, 'the negation of %s depends on the dynamic type of the stored number (%s): a parameter held as an int or a numpy scalar '
+                             'is passed on without its sign being reversed' % (p, show(got, 2, 140)), expected='-self.%s whatever its numeric type' % p, actual=show(got, 2, 200))
+                continue
+            check_equal(rep, 'R-WIRE', base + p, wn, got, -T.fields[p], 'slot %s receives -self.%s' % (p, p))
         check_equal(rep, 'R-WIRE', base + 'from_datum', wn, r.fields.get('from_datum'), T.fields['to_datum'], 'labels are swapped (from)')
         check_equal(rep, 'R-WIRE', base + 'to_datum', wn, r.fields.get('to_datum'), T.fields['from_datum'], 'labels are swapped (to)')
         check_equal(rep, 'R-WIRE', base + 'ref_epoch', wn, r.fields.get('ref_epoch'), T.fields['ref_epoch'], 'reference epoch kept')
@@ -316,6 +331,7 @@ def run(repo, rep):
     alg.reset()
     thorough = rep.tier == 'thorough'
     ev = Evaluator(repo)
+    ev.fold_const_types = True      # catalogue entries are literals: their python types are known
     rep.trust('python ast of geodepy/constants.py; abstract evaluation of Transformation.__init__/__neg__/__add__ and iers2trans (sv/symval.py)')
     rep.trust('tolerances of the chain rule: published rounding 0.1 mm / 0.01 ppb / 0.01 mas (x 1.5 for a triple), year of 365.25 days')
     rep.assume('dates are modelled by their proleptic Gregorian ordinal; round(x, 8) of a literal is folded exactly')
